@@ -156,15 +156,6 @@ theorem scalarOf_f64 (bits : Nat) (h : bits < 2 ^ 64) : scalarOf (some (typeFloa
   have e3 : typeFloat64 ≠ typeInt64 := by decide
   simp [e1, e2, e3, le8_ne_nil, bytesToFloat64_le bits h]
 
-theorem scalarOf_time (p : Bytes) (h : p ≠ []) : scalarOf (some (typeTime :: p)) = .time p := by
-  unfold scalarOf
-  rw [getTypeAndValue_cons]
-  have e1 : typeTime ≠ typeString := by decide
-  have e2 : typeTime ≠ typeInt32 := by decide
-  have e3 : typeTime ≠ typeInt64 := by decide
-  have e4 : typeTime ≠ typeFloat64 := by decide
-  simp [e1, e2, e3, e4, h, bytesToDatetime]
-
 theorem normXs_length (xs : List Value) : (normXs xs).length = xs.length := by
   induction xs with
   | nil => rfl
@@ -206,11 +197,10 @@ theorem setMarshaled_spec (v : Value) (es : Bkt) (name : Bytes) (a : Bool) (es' 
   | .bool b =>
     simp only [setMarshaled] at h
     exact ⟨_, bput_ok h, by simp [readNode, scalarOf_bool, normalize]⟩
-  | .time p =>
-    simp only [setMarshaled] at h
-    have hr : p ≠ [] := by simpa [supported] using hs
-    rw [if_neg hr] at h
-    exact ⟨_, bput_ok h, by simp [readNode, scalarOf_time p hr, normalize]⟩
+  | .time t =>
+    simp only [setMarshaled, timePayload_eq] at h
+    have hr : t.valid := by simpa [supported] using hs
+    exact ⟨_, bput_ok h, by simp [readNode, scalarOf_time t hr, normalize]⟩
   | .unsupported => simp [supported] at hs
   | .map kvs =>
     simp only [setMarshaled] at h
